@@ -750,6 +750,17 @@ class PteraTransformer(NodeTransformer):
                 w = _ptera_interact('w', None, w)
                 ...
         """
+        for i, item in enumerate(node.items[:-1]):
+            if item.optional_vars is not None:
+                # `with A as a, B as b: ...` is `with A as a: with B as b: ...`
+                # and a is bound (and reported) before B is entered
+                inner = ast.copy_location(
+                    ast.With(items=node.items[i + 1 :], body=node.body), node
+                )
+                outer = ast.copy_location(
+                    ast.With(items=node.items[: i + 1], body=[inner]), node
+                )
+                return self.visit_With(outer)
         new_body = []
         for item in node.items:
             if item.optional_vars is not None:
